@@ -426,3 +426,83 @@ func c28Extra(r *Run) error {
 	}
 	return nil
 }
+
+// pkgCallsInto lists the call sites, in the non-test files of package pkgPath, of functions of the external package
+// extPkg (e.g. every use of package os by the assets package).
+func (r *Run) pkgCallsInto(pkgPath, extPkg string) []callSite {
+	var out []callSite
+	pk := r.Prog.Pkgs[pkgPath]
+	if pk == nil || pk.TypesInfo == nil {
+		return nil
+	}
+	for _, f := range pk.Syntax {
+		if strings.HasSuffix(r.Prog.Fset.Position(f.Pos()).Filename, "_test.go") {
+			continue
+		}
+		ast.Inspect(f, func(n ast.Node) bool {
+			return true
+		})
+		for _, d := range f.Decls {
+			fd, ok := d.(*ast.FuncDecl)
+			encl := "package initialiser"
+			var body ast.Node = d
+			if ok {
+				if fd.Body == nil {
+					continue
+				}
+				if obj, _ := pk.TypesInfo.Defs[fd.Name].(*types.Func); obj != nil {
+					encl = obj.FullName()
+				}
+				body = fd.Body
+			}
+			ast.Inspect(body, func(n ast.Node) bool {
+				ce, ok := n.(*ast.CallExpr)
+				if !ok {
+					return true
+				}
+				fn, _ := typeutil.Callee(pk.TypesInfo, ce).(*types.Func)
+				if fn == nil || fn.Pkg() == nil || fn.Pkg().Path() != extPkg {
+					return true
+				}
+				out = append(out, callSite{encl + " -> " + fn.FullName(), fmt.Sprint(r.Prog.Fset.Position(ce.Pos()))})
+				return true
+			})
+		}
+	}
+	return out
+}
+
+// c39Extra: the only places the assets package touches the file system are the three calls whose path argument
+// carries the confinement assertion (os.Stat and os.Open in readAssetRange, os.ReadFile in readAssetFile).
+func c39Extra(r *Run) error {
+	ap := modInternal + "server/assets"
+	allowed := map[string]bool{
+		ap + ".readAssetRange -> os.Stat":    true,
+		ap + ".readAssetRange -> os.Open":    true,
+		ap + ".readAssetFile -> os.ReadFile": true,
+	}
+	for _, ext := range []string{"os", "io/ioutil", "path/filepath"} {
+		sites := r.pkgCallsInto(ap, ext)
+		var bad []string
+		for _, s := range sites {
+			if ext == "path/filepath" {
+				// pure path algebra is fine; anything that touches the disk (Walk, Glob, EvalSymlinks, Abs) is not
+				fnName := s.Func[strings.LastIndex(s.Func, ".")+1:]
+				switch fnName {
+				case "Join", "Clean", "Ext", "Base", "Dir", "Rel", "Split", "ToSlash", "FromSlash", "IsAbs", "VolumeName":
+					continue
+				}
+				bad = append(bad, s.Func+" at "+s.Pos)
+				continue
+			}
+			if ext == "os" && strings.Contains(s.Func, "(*os.File).") {
+				continue // methods of a file opened under the assertion
+			}
+			if !allowed[s.Func] {
+				bad = append(bad, s.Func+" at "+s.Pos)
+			}
+		}
+		r.table("C39/file-system-sinks["+ext+"]", len(bad) == 0, "every file-system call of the assets package is one of the sinks carrying the confinement assertion", fmt.Sprintf("%d call sites into %s; not allowed: %v", len(sites), ext, bad))
+	}
+	return nil
+}
